@@ -156,3 +156,5 @@ pub proof fn lemma_norm_of(b: int, s2: int, e2: int, s1: int, e1: int)
         lemma_shift_divisible(b, s2, (e2 - e1) as nat);
     }
 }
+
+pub open spec fn imin(a: int, b: int) -> int { if a <= b { a } else { b } }
